@@ -4,7 +4,7 @@ use serde_json::json;
 
 use crate::choices::Choices;
 use crate::gen::sem::SemCfg;
-use crate::props::semantic::{judge_semantic, sem_case};
+use crate::props::semantic::{judge_semantic, node_eval, sem_case, transform_for_eval};
 use crate::runner::{Case, Ctx, Property, Tier, Verdict};
 
 pub struct C01;
@@ -56,7 +56,13 @@ impl Property for C01 {
         case
     }
     fn check(&self, case: &Case, ctx: &mut Ctx) -> Verdict {
+        if case.extra["probe"].as_str() == Some("D69") {
+            return probe_d69(case, ctx);
+        }
         judge_semantic(case, ctx)
+    }
+    fn builtin_cases(&self) -> Vec<Case> {
+        d69_probe_cases()
     }
     fn required_labels(&self) -> Vec<&'static str> {
         vec![
@@ -77,5 +83,71 @@ impl Property for C01 {
             "spread-object-literal",
             "spread-call",
         ]
+    }
+}
+
+// ---------------------------------------------------------------------------------------------
+// D69 probe (known finding: a bound identifier whose name starts with a lower-case letter)
+
+/// swc's resolver leaves lower-case JSX tag names unresolved, and the transform trusts that mark:
+/// `import myButton from ...; <myButton />` is resolved at runtime by the name "myButton" instead
+/// of denoting the bound value. Lower-case bound tag names are not generated while the finding is
+/// listed; these examples are probed on every run.
+pub fn d69_probe_cases() -> Vec<Case> {
+    [
+        ("import { myButton } from \"env\";\nexport const e0 = <myButton id=\"a\" />;\n", "myButton"),
+        ("import { myButton } from \"env\";\nconst panel = myButton;\nexport const e0 = <panel />;\n", "panel"),
+        ("import { myButton } from \"env\";\nexport const e0 = ((item) => <item />)(myButton);\n", "item"),
+    ]
+    .iter()
+    .map(|(src, tag)| {
+        let mut c = Case::new(src.to_string(), "jsx", Some("{}".into()));
+        c.extra = json!({"probe": "D69", "tag": tag,
+            "env": {"bound": {"myButton": {"k": "comp", "id": "myButton"}}, "globals": {}}});
+        c.label("probe=D69");
+        c.nontrivial = true;
+        c
+    })
+    .collect()
+}
+
+pub fn probe_d69(case: &Case, ctx: &mut Ctx) -> Verdict {
+    let t = match transform_for_eval(case) {
+        Ok(t) => t,
+        Err(v) => return v,
+    };
+    if !t.diags.is_empty() {
+        return Verdict::Violation {
+            kind: "unexpected-diagnostic".into(),
+            detail: json!({"diags": t.diags}),
+        };
+    }
+    let reference = case.source.replace("<myButton id=\"a\" />", "({ type: myButton, props: { id: \"a\" } })")
+        .replace("<panel />", "({ type: panel, props: null })")
+        .replace("<item />", "({ type: item, props: null })");
+    let results = match node_eval(ctx, vec![("main", t.code.as_str()), ("ref", reference.as_str())], &case.extra["env"], &json!({"resolved": true}), None) {
+        Ok(r) => r,
+        Err(v) => return v,
+    };
+    if !results["ref"]["error"].is_null() {
+        return Verdict::Infra(format!("reference program failed: {}", results["ref"]["error"]));
+    }
+    let observed = &results["main"]["exports"]["e0"]["type"];
+    let expected = &results["ref"]["exports"]["e0"]["type"];
+    if results["main"]["error"].is_null() && observed == expected {
+        return Verdict::Pass; // the defect is gone
+    }
+    // exactly the listed signature: the tag was resolved at runtime under its own name
+    let tag = case.extra["tag"].as_str().unwrap_or("");
+    let by_name = results["main"]["resolved"]
+        .as_array()
+        .map(|a| a.iter().any(|r| r.as_str() == Some(&format!("component:{tag}"))))
+        .unwrap_or(false);
+    if by_name && results["main"]["error"].is_null() && ctx.findings.known("D69", "C01") {
+        return Verdict::Known("D69".into());
+    }
+    Verdict::Violation {
+        kind: "bound-lower-case-tag-does-not-denote-its-value".into(),
+        detail: json!({"expected_type": expected, "observed_type": observed, "error": results["main"]["error"], "output": t.code}),
     }
 }
